@@ -215,7 +215,27 @@ pub const VBASE_PROPS: &[(&str, &str)] = &[
 ];
 pub const VOTHER_PROPS: &[(&str, &str)] = &[("n", "int"), ("name", "str"), ("kind", "enum2"), ("on", "bool"), ("base", "pbase")];
 
-pub const STRINGS: &[&str] = &["", "a", "b", "abc", "x y", "Z", "é", "\u{e000}", "\u{10000}", "%1", "%1 and %2", "%2%1", "100%", "q\"q", "nl\nx"];
+pub const STRINGS: &[&str] = &["", "a", "b", "abc", "x y", "Z", "é", "\u{e000}", "\u{10000}", "%1", "%1 and %2", "%2%1", "100%", "q\"q", "nl\nx", "\u{1F600}", "\u{FF01}", "ab", "e\u{301}"];
+
+/// string constants whose orders differ between UTF-16 code units (QString, JavaScript: the specification), Unicode code
+/// points (Rust `str`) and bytes: astral characters (surrogate pairs 0xD800..) next to U+E000..U+FFFF ones, prefixes of
+/// each other, the empty string, a combining mark next to the precomposed character
+pub const ORDER_STRINGS: &[&str] = &[
+    "", "a", "ab", "abc", "b", "\u{1F600}", "\u{FF01}", "\u{E000}", "\u{10000}", "\u{FFFF}", "\u{10FFFF}", "\u{1F600}a", "\u{FF01}\u{1F600}",
+    "a\u{1F600}", "a\u{FF01}", "é", "e\u{301}", "e",
+];
+const CMP_OPS: &[&str] = &["lt", "le", "gt", "ge", "eq", "ne"];
+
+/// a comparison of two string CONSTANTS (folded by the compiler) whose result the value of the program depends on
+fn const_str_cmp(rng: &mut Rng) -> Expr {
+    let l = *rng.pick(ORDER_STRINGS);
+    // mostly pairs on which the orders disagree or that are prefixes of each other
+    let r = match rng.below(4) {
+        0 => l,
+        _ => *rng.pick(ORDER_STRINGS),
+    };
+    bin(*rng.pick(CMP_OPS), Expr::Str(l.to_owned()), Expr::Str(r.to_owned()))
+}
 
 fn gen_int(rng: &mut Rng) -> i64 {
     match rng.below(12) {
@@ -471,7 +491,48 @@ fn small_const(rng: &mut Rng) -> Expr {
 pub fn targeted(rng: &mut Rng) -> (&'static str, Program, &'static str) {
     let block = |ss: Vec<Stmt>| Program::Stmt(Stmt::Block(ss));
     let expr = |e: Expr| Program::Stmt(Stmt::Expr(e));
-    match rng.below(16) {
+    match rng.below(18) {
+        16 => {
+            // FOLDED comparisons of string constants decide the run-time value (UTF-16 code unit order; class of seeded/C01/7)
+            let c = const_str_cmp(rng);
+            match rng.below(6) {
+                0 => ("s", block(vec![Stmt::If(c, Box::new(ret(mem(id("a"), "s"))), None), Stmt::Expr(Expr::Str("no".into()))]), "const-string-compare-if"),
+                1 => ("i", expr(tern(c, dyn_int(rng), mem(id("b"), "j"))), "const-string-compare-ternary"),
+                2 => ("b", expr(bin(*rng.pick(&["land", "lor"]), c, mem(id("a"), "b"))), "const-string-compare-logical"),
+                3 => ("b", expr(bin(*rng.pick(&["eq", "ne"]), c, mem(id("a"), "c"))), "const-string-compare-eq-bool"),
+                4 => {
+                    // switch labels are compared with == : constant discriminant against constant labels
+                    let d = *rng.pick(ORDER_STRINGS);
+                    let l1 = *rng.pick(ORDER_STRINGS);
+                    let sw = Stmt::Switch(
+                        Expr::Str(d.to_owned()),
+                        vec![
+                            (Some(Expr::Str(l1.to_owned())), vec![Stmt::Expr(dyn_int(rng)), Stmt::Break(false)]),
+                            (Some(Expr::Str(d.to_owned())), vec![Stmt::Expr(mem(id("b"), "j")), Stmt::Break(false)]),
+                            (None, vec![Stmt::Expr(int(7))]),
+                        ],
+                    );
+                    ("i", block(vec![sw]), "const-string-compare-switch")
+                }
+                _ => {
+                    // nested: the folded comparison inside an if inside a ternary branch, next to a run-time comparison
+                    let c2 = const_str_cmp(rng);
+                    let rt = bin(*rng.pick(CMP_OPS), mem(id("a"), "s"), Expr::Str(rng.pick(ORDER_STRINGS).to_string()));
+                    ("i", block(vec![Stmt::If(bin("land", c, rt), Box::new(ret(tern(c2.clone(), int(1), int(2)))), Some(Box::new(Stmt::Expr(tern(c2, int(3), int(4))))))]), "const-string-compare-nested")
+                }
+            }
+        }
+        17 => {
+            // RUN-TIME comparisons of such strings: property against constant, property against property, concatenation
+            let op = *rng.pick(CMP_OPS);
+            let lit = Expr::Str(rng.pick(ORDER_STRINGS).to_string());
+            match rng.below(4) {
+                0 => ("b", expr(bin(op, mem(id("a"), "s"), lit)), "string-compare-runtime"),
+                1 => ("b", expr(bin(op, lit, mem(id("b"), "t"))), "string-compare-runtime"),
+                2 => ("b", expr(bin(op, bin("add", mem(id("a"), "s"), lit), mem(id("b"), "s"))), "string-compare-runtime"),
+                _ => ("i", block(vec![Stmt::Switch(mem(id("a"), "s"), vec![(Some(lit), vec![ret(int(1))]), (Some(mem(id("b"), "t")), vec![ret(int(2))]), (None, vec![Stmt::Expr(int(3))])])]), "string-compare-runtime"),
+            }
+        }
         14 => {
             // a `let` directly in an `if` branch: the branch is a scope of its own (regression: F32, repaired by a011e08)
             let p = block(vec![
